@@ -22,7 +22,7 @@ pub mod spec;
 pub mod world {
     use crate::spec;
     #[cfg(not(feature = "big"))]
-    pub const NK: usize = 4; // record slots per store
+    pub const NK: usize = 3; // record slots per store (2 live entries + 1 new entry / free slot)
     #[cfg(feature = "big")]
     pub const NK: usize = 5;
     #[cfg(not(feature = "big"))]
